@@ -77,6 +77,8 @@ type Op struct {
 	Fail        bool `json:"fail,omitempty"`
 	Leader      int  `json:"leader,omitempty"`
 	OtherLeader int  `json:"otherLeader,omitempty"`
+	// acquire / release: the request named id asks the limiter GetOrDefault hands out / finishes
+	ID int `json:"id,omitempty"`
 	// tick: one doAcquire round at time now; ans: the server's result for the request (nil: none)
 	Ans *TickAns `json:"ans,omitempty"`
 	// answer
@@ -115,6 +117,8 @@ func (o Op) MarshalJSON() ([]byte, error) {
 		m["fail"], m["n"], m["leader"], m["otherLeader"], m["now"] = o.Fail, o.N, o.Leader, o.OtherLeader, o.Now
 	case "tick":
 		m["now"], m["ans"] = o.Now, o.Ans
+	case "acquire", "release":
+		m["id"] = o.ID
 	case "answer":
 		m["named"], m["item"] = o.Named, o.Item
 	case "meter":
@@ -169,6 +173,7 @@ type Obs struct {
 	Event         bool   `json:"event"`
 	LastSync      int64  `json:"lastSync"`
 	Req           *int64 `json:"req"`
+	Admitted      *bool  `json:"admitted"`
 }
 
 // implementation-only readings
@@ -305,6 +310,23 @@ func normalize(cs Case) Case {
 		}
 		cs.Ops = ops
 	}
+	// a token bucket's admissions depend on the wall clock: requests are held only in max-in-flight cases
+	tbCase := cs.KindChange
+	for _, o := range cs.Ops {
+		if o.Op == "schema" && o.Schema != nil && o.Schema.TB != nil {
+			tbCase = true
+		}
+	}
+	if tbCase {
+		var ops []Op
+		for _, o := range cs.Ops {
+			if o.Op == "acquire" || o.Op == "release" {
+				continue
+			}
+			ops = append(ops, o)
+		}
+		cs.Ops = ops
+	}
 	if cs.Ops == nil {
 		cs.Ops = []Op{}
 	}
@@ -407,6 +429,9 @@ func runImpl(c *rig.Ctx, cs Case, rnd func(int) int) (res runResult) {
 	var lastSyncV int64
 	var lastReq *int64
 	hadRemote := false
+	// requests in flight keep the limiter they were handed
+	handles := map[int]flowcontrol.FlowControl{}
+	var lastAdmit *bool
 	unixS := func(ns int64) int64 {
 		if ns >= 0 {
 			return ns / 1e9
@@ -473,6 +498,20 @@ func runImpl(c *rig.Ctx, cs Case, rnd func(int) int) (res runResult) {
 				if cache != nil {
 					remote.VerifRaiseEvent(cache)
 				}
+			case "acquire":
+				if _, held := handles[op.ID]; !held {
+					fc := ul.GetOrDefault(fcName)
+					ok := fc.TryAcquire()
+					lastAdmit = &ok
+					if ok {
+						handles[op.ID] = fc
+					}
+				}
+			case "release":
+				if fc, held := handles[op.ID]; held {
+					fc.Release()
+					delete(handles, op.ID)
+				}
 			case "tick":
 				advance(op.Now)
 				lastReq = nil
@@ -523,6 +562,10 @@ func runImpl(c *rig.Ctx, cs Case, rnd func(int) int) (res runResult) {
 				}
 			}
 			o.Req = lastReq
+			if lastAdmit != nil {
+				v := *lastAdmit
+				o.Admitted = &v
+			}
 			o.Leader = leaderIndex(clientsets.VerifLeader(bare, shard))
 			res.Obs = append(res.Obs, o)
 			res.Extra = append(res.Extra, x)
@@ -675,6 +718,7 @@ func observe(cs Case, ul flowcontrols.UpstreamLimiter, cache remote.FlowControlC
 type modelReply struct {
 	Model        []Obs      `json:"model"`
 	Panic        *string    `json:"panic"`
+	Counts       [][2]int64 `json:"counts"`
 	VerdictModel [][]string `json:"verdictModel"`
 	VerdictImpl  [][]string `json:"verdictImpl"`
 }
@@ -721,8 +765,24 @@ func evaluate(c *rig.Ctx, cs Case, rnd func(int) int) (*failure, runResult) {
 	}
 	for i, x := range res.Extra {
 		o := res.Obs[i]
+		// a capacity probe sees the bucket's size minus the requests in flight in it (the model's count of them)
+		var lcount, rcount int64
+		if i < len(m.Counts) {
+			lcount, rcount = m.Counts[i][0], m.Counts[i][1]
+		}
+		room := func(size, count int64) int {
+			r := size - count
+			if r < 0 {
+				r = 0
+			}
+			return int(min64(r, int64(cs.Probe)))
+		}
 		if x.Probe >= 0 && o.Lim != nil && o.Lim.Size != nil {
-			want := int(min64(*o.Lim.Size, int64(cs.Probe)))
+			cnt := lcount
+			if o.Choice == "remote" {
+				cnt = rcount
+			}
+			want := room(*o.Lim.Size, cnt)
 			if x.Probe > want {
 				return &failure{kind: "judge", class: "c09.admits-more-than-size", step: i, impl: x,
 					what: fmt.Sprintf("after op %d the limiter handed out says %q but admitted %d concurrent requests (probe via %s)", i, x.Str, x.Probe, x.ProbeVia)}, res
@@ -733,7 +793,7 @@ func evaluate(c *rig.Ctx, cs Case, rnd func(int) int) (*failure, runResult) {
 			}
 		}
 		if x.RProbe >= 0 && o.RLim != nil && o.RLim.Size != nil {
-			want := int(min64(*o.RLim.Size, int64(cs.Probe)))
+			want := room(*o.RLim.Size, rcount)
 			if x.RProbe > want {
 				return &failure{kind: "judge", class: "c09.admits-more-than-size", step: i, impl: x,
 					what: fmt.Sprintf("after op %d the remote limiter says size %d but admitted %d concurrent requests", i, *o.RLim.Size, x.RProbe)}, res
